@@ -436,6 +436,44 @@ func (g *Gen) dnestCase(i int) *Case {
 	return c
 }
 
+// inclCase: a many-to-one match between two plain selectors with include labels. The label sets
+// of the "many" side are then the very slices the storage handed out (no function in between
+// copies them) and the include labels are added to them: the shape in which an in-place append
+// writes into storage-owned memory.
+func (g *Gen) inclCase(i int) *Case {
+	g.prof = "binary"
+	g.maxSeries = 10
+	c := g.Case(i)
+	g.prof = "incl"
+	c.ID = fmt.Sprintf("incl-%d", i)
+	c.Profile = "incl"
+	op := g.pick("==", "!=", ">", "<", ">=", "<=", "atan2", "atan2", "+", "*", "> bool")
+	pool := []string{"a", "b", "c"}
+	g.r.Shuffle(len(pool), func(i, j int) { pool[i], pool[j] = pool[j], pool[i] })
+	k := g.r.Intn(3)
+	kind := g.pick("on", "ignoring")
+	mt := kind + " (" + strings.Join(pool[:k], ",") + ")"
+	rest := pool[k:] // `on` labels may not be included again
+	if kind == "ignoring" {
+		rest = pool
+	}
+	incl := strings.Join(rest[:1+g.r.Intn(len(rest))], ",")
+	lhs, rhs := g.selectorCore(g.metric()), g.selectorCore(g.metric())
+	if g.chance(0.2) {
+		lhs += g.modifiers(c)
+	}
+	if g.chance(0.2) {
+		rhs += g.modifiers(c)
+	}
+	c.Query = fmt.Sprintf("%s %s %s %s (%s) %s", lhs, op, mt, g.pick("group_left", "group_right"), incl, rhs)
+	if g.chance(0.15) {
+		c.Query = "(" + c.Query + ") " + g.pick("+ 1", "* 2", "> 0")
+	}
+	c.Series = nil
+	g.dataset(c, extractRanges(c.Query), false)
+	return c
+}
+
 // dfuncCase enumerates every PromQL function of the parser's table (natively supported or not -
 // the distributed optimizer sees them all) with arguments of the declared types, in several
 // positions of a larger expression. Used with the plan-level `distplan` oracle only.
